@@ -54,8 +54,9 @@ SIMPLE_DEFAULTS = {"weight": 1.0, "target_acceptance_probability": 0.24, "disabl
 
 
 def observe_simple(op):
-    return {"weight": op.weight, "target": op.target_acceptance_probability, "disabled": bool(op._disable_adaptation),
-            "window_length": op._accept_window_length if not isinstance(op._accept_window_length, bool) else repr(op._accept_window_length),
+    wl = next((v for k, v in vars(op).items() if "window" in k and "length" in k), None)  # by role, not by spelling
+    return {"weight": op.weight, "target": op.target_acceptance_probability,
+            "window_length": wl if not isinstance(wl, bool) else repr(wl),
             "scale": op.tuning_parameter, "n_parameters": len(op.parameters)}
 
 
@@ -70,7 +71,8 @@ def drive_simple(torch, op, params, seed, scripted_cls):
             (op.accept if acc else op.reject)()
             op.tune(torch.tensor(0.9 if acc else 0.05, dtype=torch.float64), sample=k + 1, accepted=acc)
             sm = op.smoothed_acceptance_rate()
-            out.append((hr, [p.tensor.tolist() for p in params], op.tuning_parameter, op._adapt_count, op._accept, op._reject,
+            sd = op.state_dict()
+            out.append((hr, [p.tensor.tolist() for p in params], op.tuning_parameter, sd.get("adapt_count"), sd.get("accept"), sd.get("reject"),
                         "nan" if (isinstance(sm, float) and math.isnan(sm)) else sm))
     return out
 
@@ -164,7 +166,7 @@ def simple_operator_routes(ck, rng, found, scripted_cls, thorough):
                     obj = process_object(data, dic)
                     o = observe_simple(obj)
                     want = {"weight": float(sum(len(p["tensor"]) for p in plist)), "scale": data[info["scale_key"]],
-                            "n_parameters": len(plist), "target": 0.24, "disabled": False}
+                            "n_parameters": len(plist), "target": 0.24}
                     ck.case(("route-cli", cname, len(plist)), {"via": f"{cname} from the CLI's dictionary", "json": data},
                             bucket=f"routes/{cname}/cli")
                     if any(o[k] != want[k] for k in want):
@@ -323,7 +325,7 @@ def deepcopy_cases(ck, rng, found, scripted_cls):
             op = cls("op", [p], 1.0, 0.24, rng.choice(info["values"]))
             seed = rng.randrange(1 << 30)
             drive_simple(torch, op, [p], seed, scripted_cls)  # some history first
-            before = (p.tensor.tolist(), op.tuning_parameter, op._adapt_count, op._accept, op._reject, list(op._accept_window))
+            before = (p.tensor.tolist(), op.tuning_parameter, {k: v for k, v in op.state_dict().items() if k != "id"})
             ck.case(("deepcopy", cname, seed), {"via": f"copy.deepcopy({cname}) then 10 interactions on the copy"}, bucket=f"history/deepcopy/{cname}")
             try:
                 cp = copy.deepcopy(op)
@@ -332,7 +334,7 @@ def deepcopy_cases(ck, rng, found, scripted_cls):
             except Exception as e:
                 ck.mismatch("deepcopy of an operator raised", {"class": cname, "error": f"{type(e).__name__}: {e}"})
                 continue
-            after = (p.tensor.tolist(), op.tuning_parameter, op._adapt_count, op._accept, op._reject, list(op._accept_window))
+            after = (p.tensor.tolist(), op.tuning_parameter, {k: v for k, v in op.state_dict().items() if k != "id"})
             run_orig = drive_simple(torch, op, [p], seed2, scripted_cls)
             if before != after:
                 found.append((f"{cname}:deepcopy", {"clause": "work on a deep copy changed the original operator or its parameter",
